@@ -266,7 +266,21 @@ def run(tier, seed, replay=None):
     if model is not None:
         for (pi, m), out in zip(where, model):
             r = go[pi][m]
-            d, sn, sd, n1, n2 = (int(x) for x in out.split())
+            fields = out.split()
+            d, sn, sd, n1, n2 = (int(x) for x in fields[:5])
+            if len(fields) >= 8:
+                hist["mirror_compared"] = hist.get("mirror_compared", 0) + 1
+                # the verified Zhang-Shasha mirror must give the proved value, and the REAL tree preparation must equal the mirror's
+                if int(fields[5]) != d:
+                    diffs += 1
+                    report(pi, m, "Zhang-Shasha mirror %s differs from the specification %s (contradicts C07_zs_correct: stale driver?)" % (fields[5], d), {"model": out})
+                for which, fld in (("prep1", fields[6]), ("prep2", fields[7])):
+                    pr = go[pi].get(which)
+                    if pr is not None:
+                        impl = ",".join(str(x) for x in pr["lml"]) + "/" + ",".join(str(x) for x in pr["keyroots"])
+                        if impl != fld:
+                            diffs += 1
+                            report(pi, m, "tree preparation (left-most leaves / key roots) of apted_tree.go `%s` differs from the verified mirror's `%s`" % (impl, fld), {"model": out})
             tol = 1e-6 * (n1 + n2)
             if abs(r["d12"] * 1000 - d) > tol:
                 diffs += 1
